@@ -53,6 +53,29 @@ impl RngCore for Patterned {
   }
 }
 
+/// replays given 64-bit words, then zeros
+struct Replay {
+  words: Vec<u64>,
+  i: usize,
+}
+impl RngCore for Replay {
+  fn next_u32(&mut self) -> u32 {
+    self.next_u64() as u32
+  }
+  fn next_u64(&mut self) -> u64 {
+    let w = self.words.get(self.i).copied().unwrap_or(0);
+    self.i += 1;
+    w
+  }
+  fn fill_bytes(&mut self, dest: &mut [u8]) {
+    rand_core::impls::fill_bytes_via_next(self, dest)
+  }
+  fn try_fill_bytes(&mut self, dest: &mut [u8]) -> Result<(), rand_core::Error> {
+    self.fill_bytes(dest);
+    Ok(())
+  }
+}
+
 #[derive(Clone)]
 enum Src {
   Cha(rand_chacha::ChaCha8Rng),
@@ -187,6 +210,28 @@ pub fn record(a: &Args) -> Report {
       nshares_logged += 1;
       mine.push((nshares_logged, s));
     }
+    // shares at CHOSEN x-coordinates through the public `gen`: the random source replays the internal
+    // words of the wanted element (`Vec<u64>::from(Fp)`), so `Fp::random` returns exactly it.
+    // x = 2^128 + a collides with x = a on the low 16 bytes; p-1, 2^128, 2^64 are limb boundaries.
+    if t >= 1 && t <= 8 {
+      let two128: BigUint = BigUint::from(1u8) << 128usize;
+      let wanted: Vec<BigUint> = vec![&two128 + BigUint::from(1u8), &two128 + BigUint::from(2u8), p_big() - BigUint::from(1u8),
+                                      two128.clone(), BigUint::from(1u8) << 64usize, &two128 + BigUint::from(12450u32)];
+      for w in wanted.iter().take(if d % 2 == 0 { 6 } else { 3 }) {
+        if let Some(xf) = fp_from_big(w) {
+          let words: Vec<u64> = Vec::<u64>::from(xf);
+          let mut replay = Replay { words, i: 0 };
+          let s = evq.gen(&mut replay);
+          if s.x != xf {
+            continue; // the sampler did not take the words as given: skip (not a property of the library)
+          }
+          let (x, y) = share_json(&s);
+          writeln!(f, "{}", json!({"ev":"Share","deal":deal_no,"kind":"gen","idx":0,"x":x,"y":y})).unwrap();
+          nshares_logged += 1;
+          mine.push((nshares_logged, s));
+        }
+      }
+    }
     rep.evaluations += mine.len() as u64;
     // serialisation round trip of every share
     for (_, s) in &mine {
@@ -218,6 +263,19 @@ pub fn record(a: &Args) -> Report {
       sels.push((few, vec![]));
     }
     sels.push((vec![], vec![]));
+    // exactly t distinct shares taken from the END of the list (the chosen-x shares), and the
+    // chosen-x shares paired with their low-16-byte twins (x = a and x = 2^128 + a)
+    if mine.len() > n_next + n_gen && tt >= 1 {
+      let tail: Vec<usize> = (0..mine.len()).rev().take(tt).collect();
+      if tail.len() == tt {
+        sels.push((tail, vec![]));
+      }
+      let mut twins: Vec<usize> = vec![0, n_next + n_gen, 1, n_next + n_gen + 1];
+      twins.truncate(tt.max(2).min(4));
+      if twins.iter().all(|i| *i < mine.len()) && twins.len() >= tt {
+        sels.push((twins[..tt].to_vec(), vec![]));
+      }
+    }
     if k >= 1 && mine.len() >= 2 {
       let mut drop = vec![0u8; perm.len()];
       drop[1] = 1;
